@@ -8,6 +8,7 @@ CONSTANTS Sw, Inv,        \* switches; Inv[sw] = TRUE for normally-closed switch
           Hid, Hold,      \* handler ids, hold times (units; 0 = untimed)
           HeldSw, HeldMs, \* one switch has a configured timed event "held" after HeldMs units active
           MaxTime, MaxOps, LongAgo,
+          MuteSw,         \* switches that may be muted
           Lax             \* tolerance (time units) of recorded times: 0 for model checking and the driver's unit-grid traces
 VARIABLES now, st, hw, last,   \* logical state, raw state, time of last change per switch
           reg,        \* registered handlers: set of [id, sw, state, ms]
@@ -15,11 +16,14 @@ VARIABLES now, st, hw, last,   \* logical state, raw state, time of last change 
           pcall,      \* ids of untimed handlers still to be called for the change in progress
           incall,     \* TRUE while process_switch is running (between Report and EndReport)
           pev,        \* configured events posted and not yet delivered: set of <<sw, state>>
+          muted,      \* switches that are muted (Switch.mute: ball search, a drop target's coil pulsing): changes are still
+                      \* mirrored and void pending hold-time entries, but call no handler and post no event
+          mch,        \* (ghost) switches whose last change happened while they were muted
           nops, act
-vars == <<now, st, hw, last, reg, timed, pcall, incall, pev, nops, act>>
+vars == <<now, st, hw, last, reg, timed, pcall, incall, pev, muted, mch, nops, act>>
 HeldId == "e_held"
 Init == /\ now = 0 /\ st = [s \in Sw |-> IF Inv[s] THEN 1 ELSE 0] /\ hw = [s \in Sw |-> 0]
-        /\ last = [s \in Sw |-> LongAgo] /\ reg = {} /\ timed = {} /\ pcall = {} /\ incall = FALSE /\ pev = {}
+        /\ last = [s \in Sw |-> LongAgo] /\ reg = {} /\ timed = {} /\ pcall = {} /\ incall = FALSE /\ pev = {} /\ muted = {} /\ mch = {}
         /\ nops = 0 /\ act = [op |-> "init"]
 Ids(S) == {h.id : h \in S}
 Overdue == \E e \in timed : e.due + Lax <= now
@@ -32,27 +36,30 @@ Report(s, v, logical) ==
     /\ CallOK(FALSE) /\ nops' = nops + 1
     /\ LET n == Logical(s, v, logical) IN
        IF n = st[s]
-       THEN /\ UNCHANGED <<st, hw, last, timed, pcall, pev>> /\ incall' = TRUE
+       THEN /\ UNCHANGED <<st, hw, last, timed, pcall, pev, mch>> /\ incall' = TRUE
        ELSE /\ st' = [st EXCEPT ![s] = n] /\ hw' = [hw EXCEPT ![s] = Raw(s, v, logical)]
             /\ last' = [last EXCEPT ![s] = now]
-            /\ timed' = {e \in timed : e.sw # s}
+            /\ mch' = (IF s \in muted THEN mch \cup {s} ELSE mch \ {s})
+            /\ IF s \in muted
+               THEN /\ timed' = {e \in timed : e.sw # s} /\ UNCHANGED <<pcall, pev>>
+               ELSE /\ timed' = {e \in timed : e.sw # s}
                         \cup {[id |-> h.id, sw |-> s, due |-> now + h.ms] : h \in {x \in reg : x.sw = s /\ x.state = n /\ x.ms > 0}}
                         \cup (IF s = HeldSw /\ n = 1 THEN {[id |-> HeldId, sw |-> s, due |-> now + HeldMs]} ELSE {})
-            /\ pcall' = Ids({x \in reg : x.sw = s /\ x.state = n /\ x.ms = 0})
-            /\ pev' = pev \cup {<<s, n>>}
+                    /\ pcall' = Ids({x \in reg : x.sw = s /\ x.state = n /\ x.ms = 0})
+                    /\ pev' = pev \cup {<<s, n>>}
             /\ incall' = TRUE
-    /\ UNCHANGED <<now, reg>>
+    /\ UNCHANGED <<now, reg, muted>>
     /\ act' = [op |-> "report", sw |-> s, v |-> v, logical |-> logical]
 \* one untimed handler of the snapshot is invoked (if it has not been removed meanwhile)
 Call(id) == /\ incall /\ id \in pcall /\ id \in Ids(reg) /\ pcall' = pcall \ {id}
-            /\ UNCHANGED <<now, st, hw, last, reg, timed, incall, pev, nops>>
+            /\ UNCHANGED <<now, st, hw, last, reg, timed, incall, pev, nops, muted, mch>>
             /\ act' = [op |-> "call", id |-> id]
 \* process_switch returns: every snapshot handler that is still registered has been called
 EndReport == /\ incall /\ pcall \cap Ids(reg) = {} /\ pcall' = {} /\ incall' = FALSE
-             /\ UNCHANGED <<now, st, hw, last, reg, timed, pev, nops>> /\ act' = [op |-> "endreport"]
+             /\ UNCHANGED <<now, st, hw, last, reg, timed, pev, nops, muted, mch>> /\ act' = [op |-> "endreport"]
 \* the configured events of a change are delivered (once) before anything else happens
 Deliver(s, n) == /\ ~incall /\ <<s, n>> \in pev /\ pev' = pev \ {<<s, n>>}
-                 /\ UNCHANGED <<now, st, hw, last, reg, timed, pcall, incall, nops>>
+                 /\ UNCHANGED <<now, st, hw, last, reg, timed, pcall, incall, nops, muted, mch>>
                  /\ act' = [op |-> "deliver", sw |-> s, state |-> n]
 AddHandler(id, s, state, ms, nested) ==
     /\ CallOK(nested) /\ id \notin Ids(reg) /\ nops' = nops + 1
@@ -60,23 +67,29 @@ AddHandler(id, s, state, ms, nested) ==
     \* mid-interval rule: original deadline if still ahead, nothing otherwise
     /\ timed' = IF ms > 0 /\ st[s] = state /\ last[s] + ms > now
                 THEN timed \cup {[id |-> id, sw |-> s, due |-> last[s] + ms]} ELSE timed
-    /\ UNCHANGED <<now, st, hw, last, pcall, incall, pev>>
+    /\ UNCHANGED <<now, st, hw, last, pcall, incall, pev, muted, mch>>
     /\ act' = [op |-> "add", id |-> id, sw |-> s, state |-> state, ms |-> ms, nested |-> nested]
 RemoveHandler(id, nested) ==
     /\ CallOK(nested) /\ id \in Ids(reg) /\ nops' = nops + 1
     /\ reg' = {h \in reg : h.id # id} /\ timed' = {e \in timed : e.id # id}
-    /\ UNCHANGED <<now, st, hw, last, pcall, incall, pev>>
+    /\ UNCHANGED <<now, st, hw, last, pcall, incall, pev, muted, mch>>
     /\ act' = [op |-> "remove", id |-> id, nested |-> nested]
 \* a timed handler's deadline has come and the switch never changed in between
 \* (its callback may remove another handler - rm - on the spot: that one must not fire any more, even if it was due now too)
 TFire(id, rm) == /\ ~incall /\ rm # id /\ (rm = "" \/ rm \in Ids(reg))
                  /\ \E e \in timed : e.id = id /\ e.due \in (now - Lax)..(now + Lax) /\ timed' = {x \in timed \ {e} : x.id # rm}
                  /\ reg' = {h \in reg : h.id # rm}
-                 /\ UNCHANGED <<now, st, hw, last, pcall, incall, pev, nops>>
+                 /\ UNCHANGED <<now, st, hw, last, pcall, incall, pev, nops, muted, mch>>
                  /\ act' = [op |-> "tfire", id |-> id, t |-> now, rm |-> rm]
 Tick == /\ ~incall /\ ~Overdue /\ pev = {} /\ now < MaxTime /\ now' = now + 1
-        /\ UNCHANGED <<st, hw, last, reg, timed, pcall, incall, pev, nops>> /\ act' = [op |-> "tick"]
+        /\ UNCHANGED <<st, hw, last, reg, timed, pcall, incall, pev, nops, muted, mch>> /\ act' = [op |-> "tick"]
+\* the switch is muted / unmuted (by ball search, by its drop target's coil, by code); nothing else changes
+SetMute(s, m) == /\ CallOK(FALSE) /\ nops' = nops + 1 /\ (m <=> s \notin muted)
+                 /\ muted' = IF m THEN muted \cup {s} ELSE muted \ {s}
+                 /\ UNCHANGED <<now, st, hw, last, reg, timed, pcall, incall, pev, mch>>
+                 /\ act' = [op |-> "mute", sw |-> s, m |-> m]
 Next == \/ \E s \in Sw, v \in {0, 1}, b \in BOOLEAN : Report(s, v, b)
+        \/ \E s \in MuteSw, m \in BOOLEAN : SetMute(s, m)
         \/ \E id \in Hid : Call(id) \/ (\E rm \in Hid \cup {""} : TFire(id, rm)) \/ (\E b \in BOOLEAN : RemoveHandler(id, b))
         \/ TFire(HeldId, "") \/ EndReport \/ Tick
         \/ \E s \in Sw, n \in {0, 1} : Deliver(s, n)
@@ -96,7 +109,7 @@ TimedSound == \A e \in timed :
        ELSE \E h \in reg : h.id = e.id /\ h.sw = e.sw /\ st[e.sw] = h.state /\ e.due = last[e.sw] + h.ms
 \* every registered timed handler whose switch is in its state and whose deadline is still ahead is pending
 \* (unless it was registered after the deadline had passed)
-TimedComplete == \A h \in reg : (h.ms > 0 /\ st[h.sw] = h.state /\ last[h.sw] + h.ms > now)
+TimedComplete == \A h \in reg : (h.ms > 0 /\ st[h.sw] = h.state /\ last[h.sw] + h.ms > now /\ h.sw \notin mch)
                                    => \E e \in timed : e.id = h.id /\ e.due = last[h.sw] + h.ms
 DuplicateInert == [][ (act'.op = "report" /\ st' = st) => (timed' = timed /\ pcall' = pcall /\ pev' = pev) ]_vars
 RemovedNeverFires == [][ act'.op \in {"call", "tfire"} /\ act'.id # HeldId => act'.id \in Ids(reg) ]_vars
